@@ -1,24 +1,25 @@
 #!/bin/bash
 # tools/try_seed.sh <patch.diff> <prop> [runs]
 # Run a check against a seeded change WITHOUT touching /repo: the patch is applied in a scratch git worktree of
-# /repo's HEAD (/tmp/seedrepo) and a shadow copy of /verif/sim (/tmp/seedsim, path deps rewritten to the scratch
+# /repo's HEAD (/tmp/seedrepo$I) and a shadow copy of /verif/sim (/tmp/seedsim$I, path deps rewritten to the scratch
 # worktree, own target dir) is built and run. (Equivalent to `git -C /repo apply` + check + `git checkout -- .`,
 # but safe while other checks are running against /repo.)
 set -u
 PATCH="$(readlink -f "$1")"; PROP="$2"; RUNS="${3:-}"
+I="${SEEDINST:-}"   # optional instance suffix so that several invocations can run side by side
 export CARGO_NET_OFFLINE=true RUST_BACKTRACE=0
-if [ ! -d /tmp/seedrepo ]; then git -C /repo worktree add -q --detach /tmp/seedrepo HEAD || exit 2; fi
-cd /tmp/seedrepo || exit 2
+if [ ! -d /tmp/seedrepo$I ]; then git -C /repo worktree add -q --detach /tmp/seedrepo$I HEAD || exit 2; fi
+cd /tmp/seedrepo$I || exit 2
 git checkout -q --detach "$(git -C /repo rev-parse HEAD)" 2>/dev/null
 git checkout -q -- . ; git clean -qfd
 git apply "$PATCH" || { echo "patch does not apply"; exit 2; }
-mkdir -p /tmp/seedsim
-rsync -a --delete --exclude target /verif/sim/ /tmp/seedsim/
-sed -i 's#path = "/repo/#path = "/tmp/seedrepo/#g' /tmp/seedsim/Cargo.toml
-cd /tmp/seedsim && cargo build --release --offline >/tmp/seedsim/build.log 2>&1 || { echo BUILD FAILED; grep -E '^error' -A8 /tmp/seedsim/build.log | head -30; git -C /tmp/seedrepo checkout -q -- .; exit 2; }
-mkdir -p /tmp/seedrun; cp /verif/known_findings.json /tmp/seedrun/
+mkdir -p /tmp/seedsim$I
+rsync -a --delete --exclude target /verif/sim/ /tmp/seedsim$I/
+sed -i "s#path = \"/repo/#path = \"/tmp/seedrepo$I/#g" /tmp/seedsim$I/Cargo.toml
+cd /tmp/seedsim$I && cargo build --release --offline >/tmp/seedsim$I/build.log 2>&1 || { echo BUILD FAILED; grep -E '^error' -A8 /tmp/seedsim$I/build.log | head -30; git -C /tmp/seedrepo$I checkout -q -- .; exit 2; }
+mkdir -p /tmp/seedrun$I; cp /verif/known_findings.json /tmp/seedrun$I/
 if [ -n "$RUNS" ]; then EXTRA="--runs $RUNS"; else EXTRA=""; fi
-./target/release/cwsim check "$PROP" quick --dir /tmp/seedrun $EXTRA | grep -vE "^KNOWN-FINDING" | tail -12
+./target/release/cwsim check "$PROP" quick --dir /tmp/seedrun$I $EXTRA | grep -vE "^KNOWN-FINDING" | tail -12
 RC=${PIPESTATUS[0]}
-git -C /tmp/seedrepo checkout -q -- . ; git -C /tmp/seedrepo clean -qfd
+git -C /tmp/seedrepo$I checkout -q -- . ; git -C /tmp/seedrepo$I clean -qfd
 echo "exit=$RC"
